@@ -936,3 +936,188 @@ class express_raw_interest(Contract):
         w = run.ghost.get('wait_for', [])
         out['returned_coroutine_waits_on_that_future'] = len(w) == 1 and w[0][0] is fut
         return out
+
+
+# ============================================================================= _on_data
+NPFX = z3.Int('N_PREFIX_NODES')
+EXACT = z3.Function('PREFIX_IS_THE_DATA_NAME', INT, B)
+SATALL = z3.Function('SATISFY_LEAVES_NOTHING', INT, B)
+
+
+class DWorld:
+    FIELDS = (('called', BOOLARR), ('isparg', BOOLARR), ('deleted', BOOLARR))
+
+    def __init__(self, run):
+        self.run = run
+        self.double_call = False
+        self.double_delete = False
+        self.other_data = False
+        for f, sort in self.FIELDS:
+            setattr(self, f, z3.K(INT, z3.BoolVal(False)))
+
+    def havoc(self):
+        for f, sort in self.FIELDS:
+            setattr(self, f, z3.Const(self.run.fresh_name(f'h_{f}'), sort))
+
+
+class PfxTok:
+    def __init__(self, j):
+        self.j = j
+
+    def compare(self, it, op, other, node):
+        import ast
+        if not isinstance(other, Opaque) or other.typ != 'data_name':
+            raise Unsupported('comparison of a table prefix with something else than the Data name')
+        r = EXACT(self.j)
+        return r if isinstance(op, ast.Eq) else Not(r)
+
+
+class NodeTok:
+    def __init__(self, dw, j):
+        self.dw, self.j = dw, j
+
+    def getattr_(self, it, name, node):
+        if name != 'satisfy':
+            raise Unsupported(f'InterestTreeNode.{name}')
+
+        def satisfy(it_, data, is_prefix):
+            dw, j = self.dw, zint(self.j)
+            if it_.run.branch(z3.Select(dw.called, j), 'node.satisfy_called_twice'):
+                dw.double_call = True
+            if data is not it_.run.ghost['od']['data']:
+                if not (isinstance(data, tuple) and len(data) == 5 and all(x is y for x, y in zip(data, it_.run.ghost['od']['data']))):
+                    dw.other_data = True
+            dw.called = z3.Store(dw.called, j, z3.BoolVal(True))
+            dw.isparg = z3.Store(dw.isparg, j, zbool(it_.truth(is_prefix)))
+            return SATALL(j)
+        return _M(satisfy)
+
+
+class PrefixSeq:
+    def __init__(self, dw):
+        self.dw = dw
+
+    def seq_len(self):
+        return NPFX
+
+    def elem(self, it, i):
+        i = simp(zint(i))
+        return (PfxTok(i), NodeTok(self.dw, i))
+
+    def iterate(self, it, node):
+        raise Unsupported('iteration over the prefixes of a name needs a loop specification')
+
+
+class CleanList:
+    """clean_list: the prefixes appended so far, as a set of indices; iterated with the set protocol (order irrelevant)"""
+    set_protocol = True
+    what = 'keys'
+
+    def __init__(self, kept):
+        self.dom = kept
+        self.m = self
+
+    def getattr_(self, it, name, node):
+        if name == 'append':
+            def append(it_, p):
+                if not isinstance(p, PfxTok):
+                    raise Unsupported('append of something else than a table prefix')
+                self.dom = z3.Store(self.dom, zint(p.j), z3.BoolVal(True))
+            return _M(append)
+        raise Unsupported(f'list.{name}')
+
+
+class DataPit:
+    def __init__(self, dw):
+        self.dw = dw
+        self.queries = []
+
+    def getattr_(self, it, name, node):
+        if name == 'prefixes':
+            def prefixes(it_, nm):
+                self.queries.append(nm)
+                return PrefixSeq(self.dw)
+            return _M(prefixes)
+        raise Unsupported(f'NameTrie.{name}')
+
+    def delitem(self, it, key, node):
+        from pyvc.symseq import KeyTok
+        j = zint(key.kid) if isinstance(key, KeyTok) else (zint(key.j) if isinstance(key, PfxTok) else None)
+        if j is None:
+            raise Unsupported('deletion of an unknown table key')
+        if it.run.branch(z3.Select(self.dw.deleted, j), 'table.deleted_twice'):
+            self.dw.double_delete = True
+            it.raise_(KeyError, 'deleted twice', node=node)
+        self.dw.deleted = z3.Store(self.dw.deleted, j, z3.BoolVal(True))
+
+
+def _od_clean(env):
+    v = env['clean_list']
+    if isinstance(v, CleanList):
+        return v.dom
+    if isinstance(v, list) and v == []:
+        return z3.K(INT, z3.BoolVal(False))
+    raise Unsupported('clean_list value')
+
+
+def _od_inv1(it, env, g):
+    dw = it.run.ghost['od']['dw']
+    i = zint(g['i'])
+    a = z3.Int('a!d1')
+    seen = z3.And(a >= 0, a < i)
+    return {'every_node_so_far_was_offered_the_data_once': And(z3.ForAll([a], z3.Select(dw.called, a) == seen), not dw.double_call,
+                                                               not dw.other_data),
+            'is_prefix_flag_is_prefix_differs_from_data_name': z3.ForAll([a], z3.Implies(seen, z3.Select(dw.isparg, a) == z3.Not(EXACT(a)))),
+            'clean_list_holds_exactly_the_emptied_nodes_so_far': z3.ForAll([a], z3.Select(_od_clean(env), a) == z3.And(seen, SATALL(a))),
+            'nothing_deleted_yet': z3.ForAll([a], z3.Not(z3.Select(dw.deleted, a)))}
+
+
+def _od_havoc1(it, env, g):
+    it.run.ghost['od']['dw'].havoc()
+    return CleanList(z3.Const(it.run.fresh_name('clean'), BOOLARR))
+
+
+def _od_inv2(it, env, g):
+    dw = it.run.ghost['od']['dw']
+    a = z3.Int('a!d2')
+    return {'deleted_exactly_the_visited_prefixes': And(z3.ForAll([a], z3.Select(dw.deleted, a) == z3.Select(g['visited'], a)),
+                                                        not dw.double_delete)}
+
+
+def _od_havoc2(it, env, g):
+    dw = it.run.ghost['od']['dw']
+    dw.deleted = z3.Const(it.run.fresh_name('h_deleted'), BOOLARR)
+    return env['self']
+
+
+@contract
+class on_data(Contract):
+    fn = appv2.NDNApp._on_data
+    props = ('C03',)
+    doc = ('_on_data, for ANY number of pending nodes on prefixes of the Data name: every such node is offered this Data exactly once '
+           '(node.satisfy) with is_prefix = (its name differs from the Data name); exactly the nodes that report nothing left pending '
+           'are removed from the table, each once; nothing is raised')
+    raises = {}
+    loops = {1: LoopSpec(_od_inv1, havoc={'clean_list': _od_havoc1}), 2: LoopSpec(_od_inv2, havoc={'self': _od_havoc2})}
+
+    def setup(self, cx):
+        run = cx.run
+        run.assume(NPFX >= 0)
+        dw = DWorld(run)
+        pit = DataPit(dw)
+        name = Opaque('data_name', 'data name')
+        data = (name, Opaque('token', 'meta'), Opaque('token', 'content'), Opaque('token', 'sig'), Opaque('token', 'raw'))
+        run.ghost['od'] = dict(dw=dw, pit=pit, data=data)
+        return dict(self=mk_app2(cx, pit), name=name, meta_info=data[1], content=data[2], sig=data[3], raw_packet=data[4])
+
+    def post(c, cx, result, self, name, meta_info, content, sig, raw_packet):
+        g = cx.run.ghost['od']
+        dw = g['dw']
+        a = z3.Int('a!dp')
+        rng = z3.And(a >= 0, a < NPFX)
+        return {'table_asked_for_the_prefixes_of_the_data_name': g['pit'].queries == [name],
+                'every_prefix_node_offered_this_data_exactly_once': And(z3.ForAll([a], z3.Select(dw.called, a) == rng), not dw.double_call,
+                                                                        not dw.other_data),
+                'is_prefix_flag': z3.ForAll([a], z3.Implies(rng, z3.Select(dw.isparg, a) == z3.Not(EXACT(a)))),
+                'exactly_the_emptied_nodes_removed_once': And(z3.ForAll([a], z3.Select(dw.deleted, a) == z3.And(rng, SATALL(a))),
+                                                              not dw.double_delete)}
